@@ -5,6 +5,8 @@ import (
 	"compress/zlib"
 	"encoding/json"
 	"fmt"
+	"image"
+	"image/jpeg"
 	"os"
 	"path/filepath"
 	"sort"
@@ -194,6 +196,62 @@ func generatedHostile() []seedFile {
 
 	// cross-reference stream declaring 2^24-1 one-byte entries in ~16 KiB
 	add("hostile-xref-size.pdf", hugeXRefStream())
+
+	// compressed (type 2) entries whose container number lies around the
+	// largest legal object number, next to a valid object stream
+	members = "10 0 11 8 "
+	objstm := streamObj(fmt.Sprintf("/Type /ObjStm /N 2 /First %d", len(members)), []byte(members+"[1 2 3] (member)"))
+	for _, c := range []struct {
+		tag string
+		n   int
+	}{{"2p24-1", 1<<24 - 1}, {"2p24", 1 << 24}, {"2p24+1", 1<<24 + 1}, {"2p32-1", 1<<32 - 1}} {
+		add("hostile-xref-type2-"+c.tag+".pdf", xrefStreamFile(map[int]string{
+			1: "<< /Type /Catalog /Pages 2 0 R /A 10 0 R /B 12 0 R /C 14 0 R >>",
+			2: "<< /Type /Pages /Count 1 /Kids [ 3 0 R ] >>",
+			3: pageObj, 4: contentObj, 5: fontObj,
+			13: objstm,
+		}, map[int][2]int{10: {13, 0}, 11: {13, 1}, 12: {c.n, 0}, 14: {c.n, 255}}))
+	}
+	// object streams whose index table names hostile object numbers and offsets
+	for i, head := range []string{
+		"16777215 0 16777216 8 4294967295 16 ",
+		"10 4294967295 11 8 12 2147483647 ",
+		"10 0 10 0 13 8 ", // duplicates and the container itself
+		"10 99999999999999999999 11 -8 12 16 ",
+	} {
+		body := head + "[1 2 3] (two)   (three)"
+		add(fmt.Sprintf("hostile-objstm-index-%d.pdf", i), xrefStreamFile(map[int]string{
+			1: "<< /Type /Catalog /Pages 2 0 R /A 10 0 R /B 11 0 R /C 12 0 R >>",
+			2: "<< /Type /Pages /Count 1 /Kids [ 3 0 R ] >>",
+			3: pageObj, 4: contentObj, 5: fontObj,
+			13: streamObj(fmt.Sprintf("/Type /ObjStm /N 3 /First %d /Filter /FlateDecode", len(head)), deflate([]byte(body))),
+		}, map[int][2]int{10: {13, 0}, 11: {13, 1}, 12: {13, 2}}))
+	}
+
+	// images: a valid 256x256 JPEG as image XObject, and the same data under
+	// filter chains in which DCTDecode is not the top filter and the filter
+	// above it rejects the decoded samples
+	img := image.NewGray(image.Rect(0, 0, 256, 256))
+	for i := range img.Pix {
+		img.Pix[i] = 0xFF
+	}
+	var jp bytes.Buffer
+	if err := jpeg.Encode(&jp, img, &jpeg.Options{Quality: 90}); err == nil {
+		imgPage := "<< /Type /Page /Parent 2 0 R /MediaBox [0 0 200 200] /Contents 4 0 R /Resources << /Font << /F1 5 0 R >> /XObject << /Im1 6 0 R >> >> >>"
+		imgContent := streamObj("", []byte("q 100 0 0 100 50 50 cm /Im1 Do Q BT /F1 12 Tf 10 20 Td (image) Tj ET"))
+		imgDoc := func(filter string) []byte {
+			return classicFile(map[int]string{
+				1: "<< /Type /Catalog /Pages 2 0 R >>",
+				2: "<< /Type /Pages /Count 1 /Kids [ 3 0 R ] >>",
+				3: imgPage, 4: imgContent, 5: fontObj,
+				6: streamObj("/Type /XObject /Subtype /Image /Width 256 /Height 256 /ColorSpace /DeviceGray /BitsPerComponent 8 /Filter "+filter, jp.Bytes()),
+			}, "")
+		}
+		out = append(out, seedFile{Name: "gen-image-dct.pdf", Data: imgDoc("/DCTDecode")})
+		for _, upper := range []string{"ASCIIHexDecode", "LZWDecode", "ASCII85Decode", "RunLengthDecode"} {
+			add("hostile-dct-chain-"+upper+".pdf", imgDoc("[ /DCTDecode /"+upper+" ]"))
+		}
+	}
 	return out
 }
 
@@ -230,7 +288,7 @@ func xrefStreamFile(objs map[int]string, compressed map[int][2]int) []byte {
 			tab = append(tab, 1, byte(o>>24), byte(o>>16), byte(o>>8), byte(o), 0)
 		case compressed[n] != [2]int{}:
 			c := compressed[n]
-			tab = append(tab, 2, 0, 0, byte(c[0]>>8), byte(c[0]), byte(c[1]))
+			tab = append(tab, 2, byte(c[0]>>24), byte(c[0]>>16), byte(c[0]>>8), byte(c[0]), byte(c[1]))
 		default:
 			tab = append(tab, 0, 0, 0, 0, 0, 0)
 		}
